@@ -211,6 +211,11 @@ class Terms:
                 return ("fnref", op["fn_path"])
             if "v" in op:
                 return ("const", op["v"])
+            if "pointee_variant" in op:
+                # `&Enum::Variant` constant (promoted): the same term as the by-value aggregate
+                return ("agg", op.get("ty", "").lstrip("&").strip(), op["pointee_variant"], ())
+            if "pointee_v" in op:
+                return ("const", op["pointee_v"])
             if "def" in op:
                 return ("const", op["def"])
             if "s" in op:
